@@ -2,14 +2,14 @@
 //! decision equals that of the independent CoreVerify.
 
 use super::util::*;
-use crate::gen::{self, Content};
+use crate::gen;
 use crate::refimpl::{self, Scheme, RG, RS, SCHEMES};
 use crate::suite::*;
 use crate::{for_both, hx, Ctx, Tier};
 use blsful::*;
 use serde_json::json;
 
-pub const RULE: &str = "per honest tuple (key from E or random, message from the length classes, scheme, group; signed by the reference) the whole perturbation catalogue of the quantifier is applied: sig+kG (k=1,2,r-1), -sig, 2*sig, 3*sig, signature of another message, signature by another key; every single-bit flip of the message (exhaustive for the designated short-message tuple of each cell, 16 sampled flips otherwise), truncate by 1, extend by 0x00, replace by empty; pk of another key, pk+G, -pk; each other scheme label on the same point; the identity as key, as signature and as both (the pairing equation holds trivially for the last; cell 'identity'); VALID variants: (sig+Q)-Q, 2*(sig/2), decode(encode(sig)), key-sum with signature-sum over one message (valid in Basic/PoP, invalid in Aug). Each tuple is decided by Signature::verify, MultiSignature::verify and PublicKeyShare::verify and by the reference CoreVerify; library decision must equal the constructed expectation and the reference (expectation != reference is a harness error). History pass: around every invalid tuple the sequence honest, invalid, invalid, honest is asked through Signature::verify and must answer accept, reject, reject, accept (a decision may depend on the tuple only, not on what was asked before). Distinct by (suite,scheme,entry,pk,sig,msg); all tuples outside the 'identity' cell are non-trivial (both points decode, neither is the identity, the pairing equation decides).";
+pub const RULE: &str = "per honest tuple (key from E or random, message from the length classes incl. 160 / 208 where pk||msg is 256 bytes, contents rotating random / all-zero / all-0xff / counter, scheme, group; signed by the reference) the whole perturbation catalogue of the quantifier is applied: sig+kG (k=1,2,r-1), -sig, 2*sig, 3*sig, signature of another message, signature by another key; every single-bit flip of the message (exhaustive for the designated short-message tuple of each cell, 16 sampled flips otherwise), truncate by 1, extend by 0x00, replace by empty; pk of another key, pk+G, -pk; each other scheme label on the same point; the identity as key, as signature and as both (the pairing equation holds trivially for the last; cell 'identity'); VALID variants: (sig+Q)-Q, 2*(sig/2), decode(encode(sig)), key-sum with signature-sum over one message (valid in Basic/PoP, invalid in Aug). Each tuple is decided by Signature::verify, MultiSignature::verify and PublicKeyShare::verify and by the reference CoreVerify; library decision must equal the constructed expectation and the reference (expectation != reference is a harness error). History pass: around every invalid tuple the sequence honest, invalid, invalid, honest is asked through Signature::verify and must answer accept, reject, reject, accept (a decision may depend on the tuple only, not on what was asked before). Distinct by (suite,scheme,entry,pk,sig,msg); all tuples outside the 'identity' cell are non-trivial (both points decode, neither is the identity, the pairing equation decides).";
 
 pub fn run(ctx: &mut Ctx) {
     for_both!(run_suite, ctx);
@@ -29,7 +29,8 @@ fn run_suite<C: Suite>(ctx: &mut Ctx) {
     let edges = gen::edge_scalars(&mut erng);
     // 4097 / 5000 / 70000: a verifier that hashes only a prefix of long messages is visible through
     // the last-bit flip and the truncate / extend variants, which every tuple carries
-    let lens: &[usize] = ctx.tier.pick(&[0usize, 1, 8, 33, 257, 5000][..], &[0usize, 1, 8, 31, 32, 33, 128, 257, 4096, 4097, 16385, 70000][..]);
+    // 160 / 208: pk || msg is exactly 256 bytes for the 96- / 48-byte public key (augmentation)
+    let lens: &[usize] = ctx.tier.pick(&[0usize, 1, 8, 33, 160, 208, 257, 5000][..], &[0usize, 1, 8, 31, 32, 33, 128, 159, 160, 161, 207, 208, 209, 257, 4096, 4097, 16385, 70000][..]);
     let exhaustive_len: usize = ctx.tier.pick(8, 32);
     for scheme in SCHEMES {
         for kind in ["bitflip", "sig", "pk", "msglen", "relabel", "valid", "identity"] {
@@ -64,7 +65,10 @@ fn run_suite<C: Suite>(ctx: &mut Ctx) {
 
 fn one_tuple<C: Suite>(ctx: &mut Ctx, g: u64, scheme: Scheme, kname: &str, sk: &RS, len: usize, exhaustive: bool) {
     let mut rng = ctx.rng(g);
-    let msg = gen::message(len, Content::Random, &mut rng);
+    // contents rotate with the case: random, all-zero, all-0xff, counter (a verifier that looks
+    // at the message's bytes instead of its length shows on the structured ones)
+    let content = gen::CONTENTS[((g % 4) as usize + 3) % 4];
+    let msg = gen::message(len, content, &mut rng);
     // the honest tuple is produced by the REFERENCE (whether the library's own signer conforms
     // is C01/C03's question; here the verifier is under test)
     let pk = refimpl::sk_to_pk::<C::R>(sk);
